@@ -169,6 +169,28 @@ func (w *World) genVCs(fn *ssa.Function, useH bool, dropped, hcount map[string]b
 		c.inputs = append(c.inputs, inputVar{Name: p.Name(), Val: v, T: p.Type()})
 	}
 	c.entryArgs = args
+	// a parameter of interface type I does not hold a value of a module type that lacks I's methods (language typing); stated
+	// for the stream-alias types, whose presence would otherwise let e.g. an io.ReadSeeker be an isobmff box
+	for i, p := range fn.Params {
+		it, ok := p.Type().Underlying().(*types.Interface)
+		iv, ok2 := args[i].(IfaceV)
+		if !ok || !ok2 {
+			continue
+		}
+		env := &CEnv{c: c}
+		if fn.Pkg != nil {
+			env.pkg = fn.Pkg.Pkg
+		}
+		for _, al := range w.streamAlias {
+			func() {
+				defer func() { recover() }()
+				t := c.resolveTypeName(env, al.typ)
+				if t != nil && !types.Implements(t, it) {
+					c.assume("true", fmt.Sprintf("(not (= %s %d))", iv.Tag, w.typeTag(t)))
+				}
+			}()
+		}
+	}
 	if fn.Signature.Recv() != nil {
 		if _, isPtr := fn.Signature.Recv().Type().(*types.Pointer); isPtr {
 			if r, ok := ptrAsRef(args[0]); ok {
